@@ -81,6 +81,7 @@ def check(case):
         cond_a = dict(base_cond, area=base_cond["area"] * sc, amount=base_cond["amount"] * sc)
         tw, ev = _traced_run(case, s, dt, cond_a)
         if is_raised(tw):
+            require(not _is_pow2(sc), "the model returned, but with area and feed amount x %r (a power of two: exact scaling) it raised %r", sc, tw)
             classes.append("twin-a-raised")
         elif ev == ev0:
             compare(base, tw, 1e-13 if _is_pow2(sc) else 1e-9, sc, 1.0, "area and amount x %r" % sc)
@@ -92,6 +93,7 @@ def check(case):
             cond_b = dict(base_cond, area=base_cond["area"] * k)
             tw, ev = _traced_run(case, s, dt / k, cond_b)
             if is_raised(tw):
+                require(not _is_pow2(k), "the model returned, but with area x %r and step length / %r (a power of two) it raised %r", k, k, tw)
                 classes.append("twin-b-raised")
             elif ev == ev0:
                 compare(base, tw, 1e-13 if _is_pow2(k) else 1e-9, 1.0, 1.0 / k, "area x %r, step length / %r" % (k, k))
@@ -120,6 +122,6 @@ def check(case):
 PARTS = [
     Part("ideal", lambda tier: strategy(("ideal-iso", "ideal-noniso")), check, {"quick": 2400, "thorough": 80000},
          floor={"quick": 200, "thorough": 6000}),
-    Part("non-ideal", lambda tier: strategy(("nonideal-iso", "nonideal-noniso")), check, {"quick": 160, "thorough": 4000},
-         floor={"quick": 20, "thorough": 500}, shrink={"quick": False, "thorough": True}),
+    Part("non-ideal", lambda tier: strategy(("nonideal-iso", "nonideal-noniso")), check, {"quick": 320, "thorough": 6000},
+         floor={"quick": 40, "thorough": 700}, shrink={"quick": False, "thorough": True}),
 ]
